@@ -663,6 +663,43 @@ fn family_c01(ctx: &mut Ctx) {
     // nearly everything received: single losses around bitmap word boundaries
     let n = if ctx.thorough { 200 } else { 40 };
     long_run_rounds(ctx, &mut rng, &engines, n, true);
+    // every configuration ON the envelope edge, on every engine: the encoders must agree (and none may fail), and - for
+    // a third of them per run - every engine decodes at maximum loss
+    for (bi, (rate, k, r)) in boundary_configs(true).into_iter().filter(|c| c.1 + c.2 >= 60000).enumerate() {
+        let ded = Some(if rate == "high" { Kind::High } else { Kind::Low });
+        let fast: Vec<&'static str> = engines.iter().copied().filter(|e| *e != "naive").collect();
+        let mut orig = vec![vec![0u8; 2]; k];
+        for i in [0usize, k / 3, k - 1] {
+            let v: u16 = rng.gen_range(1..=u16::MAX);
+            orig[i] = vec![v as u8, (v >> 8) as u8];
+        }
+        let mut digs = Obj::new();
+        let mut rec0: Option<Vec<Vec<u8>>> = None;
+        for e in &fast {
+            ops::poison_on(ctx.seed ^ ctx.counter);
+            let res = with_engine!(*e, E, { encode_round::<E>(ded, k, r, &orig) });
+            ctx.counter += 1;
+            match res {
+                Ok(rec) => {
+                    let parts: Vec<&[u8]> = rec.iter().map(Vec::as_slice).collect();
+                    digs = digs.str(e, &format!("{}:{:016x}", rec.len(), util::fnv_many(parts)));
+                    if rec0.is_none() {
+                        rec0 = Some(rec);
+                    }
+                }
+                Err(f) => digs = digs.str(e, &format!("FAIL {f}")),
+            }
+        }
+        ctx.trace.line(&Obj::new().str("ev", "xenc").str("rate", rate).us("k", k).us("r", r).us("sb", 2).raw("digs", &digs.done()).done());
+        if let Some(rec) = rec0 {
+            if rec.len() == r && (ctx.thorough || bi % 3 == (ctx.seed as usize) % 3) {
+                let pats = patterns(&mut rng, k, r, 0);
+                for e in &fast {
+                    dec_event(ctx, e, ded, k, r, &orig, &rec, &pats[1], &[0, k - 1, k]);
+                }
+            }
+        }
+    }
     // envelope boundary at maximum loss
     for (rate, k, r) in boundary_configs(ctx.thorough) {
         let dr = ops::default_rate_of(k, r).unwrap_or("none");
@@ -1227,6 +1264,36 @@ fn family_c04(ctx: &mut Ctx) {
                     let e2 = engines[(si + t + 1) % engines.len()];
                     let kd2 = *ops::kinds_for(rate, dr, e2).choose(&mut rng).unwrap();
                     dec_event(ctx, e2, kd2, k, r, &orig, &rec, &pats[1], &[0, k - 1, k]);
+                }
+            }
+        }
+    }
+    // sizes of many blocks (kernels that tile a shard: tails of 4, 16, 64 blocks) on EVERY engine: one engine's round
+    // is evaluated slot by slot, the others must produce the same bytes (`alleq`), and all of them decode
+    let big: &[usize] = if ctx.thorough { &[1090, 2114, 4162, 5000, 8258, 12290, 16450] } else { &[1090, 4162, 5000] };
+    for (bi, sb) in big.iter().copied().enumerate() {
+        let (rate, k, r) = [("high", 3usize, 2usize), ("low", 2, 3), ("high", 4, 4)][(bi + ctx.seed as usize) % 3];
+        let ded = Some(if rate == "high" { Kind::High } else { Kind::Low });
+        let g = 200_000 + bi as i64;
+        ctx.group = Some(g);
+        let orig = originals(ctx.seed, 0x4B00 + ctx.counter, k, sb);
+        let mut lines = Vec::new();
+        let mut rec0 = None;
+        for (ei, e) in engines.iter().enumerate() {
+            let (l, rec) = enc_event(ctx, e, ded, k, r, &orig, None, ei == (bi + ctx.seed as usize) % engines.len());
+            lines.push(l as i64);
+            if rec0.is_none() {
+                rec0 = rec;
+            }
+        }
+        let here = ctx.trace.lines as i64 + 1;
+        ctx.trace.line(&Obj::new().str("ev", "alleq").int("g", g).raw("refs", &arr_json(&lines.iter().map(|l| (l - here).to_string()).collect::<Vec<_>>())).done());
+        ctx.group = None;
+        if let Some(rec) = rec0 {
+            if rec.len() == r && rec.iter().all(|s| s.len() == sb) {
+                let pats = patterns(&mut rng, k, r, 0);
+                for e in &engines {
+                    dec_event(ctx, e, ded, k, r, &orig, &rec, &pats[1], &[0, k - 1, k]);
                 }
             }
         }
